@@ -659,6 +659,36 @@ Definition spec_txns (c : chain) (p : pool) (kind : Z) (addrs : list Z) : list t
 Definition pool_stale (c : chain) (p : pool) : bool :=
   negb (forallb (fun i => memZ i (map ux_id (utxo_of c))) (pool_ins p)).
 
+(* ---- concurrency group: queries issued WHILE blocks / injections are being executed.
+   steps = every operation of the round with the pool after it; a query is recorded with the
+   number of operations completed when it started (lo) and started when it returned (hi); its
+   answer must be the view of ONE state k, lo <= k <= hi (a single snapshot, never a mixture) *)
+Inductive cq :=
+| CQBal (addrs : list Z) (r : string + list (Z * Z * Z * Z))
+| CQTx (kind : Z) (addrs : list Z) (rows : list txrow).
+Definition conc_case := (list (hop * pool) * list (Z * Z * cq))%type.
+(* state after k operations, k = 0.. ; None where the model cannot follow *)
+Fixpoint conc_states (n : node) (steps : list (hop * pool)) : list (option (node * pool)) :=
+  match steps with
+  | [] => []
+  | (hop, p) :: r =>
+      let next := match hop with
+                  | HBlock b => step n (OBlock b)
+                  | HReopen iw hw order => step n (OReopen iw hw order)
+                  | HPool => Some n
+                  end in
+      match next with
+      | Some n' => Some (n', p) :: conc_states n' r
+      | None => [None]
+      end
+  end.
+Fixpoint zrange (lo : Z) (n : nat) : list Z := match n with O => [] | Datatypes.S m => lo :: zrange (lo + 1) m end.
+Definition exists_state (states : list (option (node * pool))) (lo hi : Z) (test : node -> pool -> bool) : bool :=
+  existsb (fun k => match nth_error states (Z.to_nat (k - 1)) with
+                    | Some (Some (n, p)) => test n p
+                    | _ => false
+                    end) (zrange (Z.max 1 lo) (Z.to_nat (hi - Z.max 1 lo + 1))).
+
 (* helpers shared by the cases templates *)
 Definition eqb_optl (a b : option (list Z)) : bool := eqb_option (eqb_list Z.eqb) a b.
 Definition eqb_quad (a b : Z * Z * Z * Z) : bool :=
